@@ -27,8 +27,9 @@ type Case struct {
 
 func Spec() *mon.Spec {
 	return &mon.Spec{
-		ID:    "C05",
-		Level: "exploration",
+		ID:      "C05",
+		RuleAdd: "Later additions (rounds 4-17): a complete reply makes every field reachable; multiset counts for duplicated definitions; builder errors for lists of valid fields; value-form responses; near-twin fields, stray Length on non-strings, strings of 61..250 bytes, builders with defaults of their own.",
+		Level:   "exploration",
 		Rule: "PRNG field multisets (1..40 fields, all 13 register types, clustered/gapped/edge addresses incl. 0..4 and 65530..65535, duplicates, overlaps, all documented orders, string lengths 1..255, 1-3 servers x 1-3 unit ids with hostile names) -> Builder.Read{Holding,Input}Registers{TCP,RTU} -> each request's Bytes() is decoded by the reference decoder and answered by a simulated device whose memory is a hash of (server, unit, table, address) -> reply parsed by the library's dispatcher -> ExtractFields strict and lenient. " +
 			"Oracle: every valid register field reported exactly once under its own definition; value == reference decode of that device's memory; truncated replies (device answers k registers short): strict => error and no values, lenient => all fields present, Error exactly on fields not inside the shortened window, ErrorFieldExtractHadError iff any failed. distinct key = hash(sorted field list, target, truncation).",
 		Assumptions: []string{"reference decoder regref; simulated device built on specref only", "requests whose window runs past 65535 are answered with exception 02 by the device and are not extraction cases"},
